@@ -1,4 +1,4 @@
-PROPS = ["CTV.Props.C15", "CTV.Props.C15Tie"]
+PROPS = ["CTV.Props.C15", "CTV.Props.C15Tie", "CTV.Model.ConfigSpec"]
 HARNESS = [dict(pkg="./trillian/ctfe/", test="TestVerifC15")]
 RULE = ("LogConfig / LogMultiConfig messages generated field by field from valid bases (log, mirror, frozen log, frozen mirror; ECDSA P-256/P-384, "
         "RSA-2048, Ed25519 keys) plus 0-2 mutations (absent / empty / negative / duplicated / odd values of every field, odd connection strings "
